@@ -170,6 +170,17 @@ def run(ctx):
                             break
                     if prob:
                         break
+            if prob is None and odd is None and not any(sg.get("_scaled") for sg in segs):
+                # independent of the reader's view of the SOURCE (defragment reads it with the same code): the raw values of every
+                # channel of the copy against the values the spec encoder put into the source
+                rcopy, _ = canon.real_read(dst, nptdms)
+                if rcopy.get("ok"):
+                    got_vals = {c_["path"]: (c_["data"] or []) for c_ in rcopy["channels"]}
+                    for o_ in e["content"]:
+                        if o_["values"] and o_["ty"] != 0xFFFFFFFF and got_vals.get(o_["path"]) != o_["values"]:
+                            prob = "raw values of %r in the copy differ from the values encoded in the source: %s vs %s" % (
+                                bytes.fromhex(o_["path"]), str(got_vals.get(o_["path"]))[:80], str(o_["values"])[:80])
+                            break
             if prob:
                 violations.append(Violation("defragment changed the content: " + prob, dict(kind="defrag", source=src.hex(), dest=dst.hex(), encoding=gen_files.to_line(segs))))
             f = gen_files.features(segs)
@@ -179,7 +190,7 @@ def run(ctx):
                 nontrivial.add(src)
             if len(samples) < 2 and len(src) < 300:
                 samples.append(dict(encoding=gen_files.to_line(segs)))
-            if len(violations) >= 5 or len(disagreements) >= 20:
+            if len(violations) >= 5 or len(disagreements) >= ctx.dis_limit:
                 break
             if ctx.tier == "quick" and ctx.elapsed() > 45:
                 break
